@@ -240,7 +240,15 @@ Proof.
            apply cmds_wf_app; [exact Hw |]. cbn. split; [constructor | split; reflexivity].
       * inversion H; subst; cbn. split; [| reflexivity].
         apply cmds_wf_app; [exact Hw |]. cbn. split; [constructor | split; reflexivity].
-    + discriminate.
+    + destruct (match zlookup step (c_handler_for (cfg (k_state a))) with
+                | Some n => zlookup n (c_handlers (cfg (k_state a))) | None => None end) as [hd|] eqn:Eh.
+      * destruct (Z.leb _ _).
+        -- inversion H; subst; cbn. split; [| reflexivity].
+           apply cmds_wf_app; [exact Hw | apply plain_wf; repeat constructor].
+        -- inversion H; subst; cbn. split; [| reflexivity].
+           apply cmds_wf_app; [exact Hw |]. cbn. split; [constructor | split; reflexivity].
+      * inversion H; subst; cbn. split; [| reflexivity].
+        apply cmds_wf_app; [exact Hw |]. cbn. split; [constructor | split; reflexivity].
   - destruct (Nat.ltb _ _); inversion H; subst; cbn; split; try reflexivity; try exact Hw.
     apply cmds_wf_app; [exact Hw | apply plain_wf; repeat constructor].
   - destruct dc; inversion H; subst; cbn; auto.
